@@ -127,6 +127,14 @@ template <class T> static void model_cmp(std::mt19937_64& g, int n) {
       emit("compressible", a < b, a <= b, a > b, a >= b, a == b, a != b, std::hash<CFluid<T>>()(a) == std::hash<CFluid<T>>()(b), 2);
       IFluid<T> c(DynamicViscosity<T>(rankval<T>(ra[0]), U)), d(DynamicViscosity<T>(rankval<T>(rb[0]), U));
       emit("incompressible", c < d, c <= d, c > d, c >= d, c == d, c != d, std::hash<IFluid<T>>()(c) == std::hash<IFluid<T>>()(d), 1); } }
+  // copies: copy / move construction and copy / move assignment give an object equal to the source (same hash), default construction is well defined
+  auto copies = [&](const char* mn, auto a, auto other) { using M = decltype(a); M c1(a); M tmp1(a); M c2(std::move(tmp1)); M c3(other); c3 = a; M tmp2(a); M c4(other); c4 = std::move(tmp2); M def; (void)def;
+    bool ok = c1 == a && c2 == a && c3 == a && c4 == a && !(c1 != a) && std::hash<M>()(c1) == std::hash<M>()(a) && std::hash<M>()(c3) == std::hash<M>()(a) && (other == a || c3 != other);
+    printf("{\"e\":\"ModelCopy\",\"model\":\"%s\",\"num\":\"%s\",\"ok\":%d}\n", mn, NN<T>::c, (int)ok); };
+  { auto U = Unit::DynamicViscosity::PascalSecond;
+    copies("elastic", Solid<T>(ShearModulus<T>((T)1.25L, PA), LameFirstModulus<T>((T)0.1L, PA)), Solid<T>(ShearModulus<T>((T)3, PA), LameFirstModulus<T>((T)4, PA)));
+    copies("compressible", CFluid<T>(DynamicViscosity<T>((T)0.3L, U), BulkDynamicViscosity<T>((T)7, U)), CFluid<T>(DynamicViscosity<T>((T)2, U), BulkDynamicViscosity<T>((T)1, U)));
+    copies("incompressible", IFluid<T>(DynamicViscosity<T>((T)0.3L, U)), IFluid<T>(DynamicViscosity<T>((T)2, U))); }
 }
 // ---- numeric layer ----
 template <class T> static void elastic_real(uint64_t seed, int n) {
